@@ -21,7 +21,7 @@ from vlib import VERIF
 #   mc: (exhaustive config module, quick?, timeout s)
 PIPE = {
     "C01": dict(clauses=["C01_"], sims=[("Sim_multi", 60, 600, 170), ("Sim_multi_crash", 40, 500, 170)], mc=[("MC_c01q", 400, "quick"), ("MC_c01", 1500, "thorough")]),
-    "C02": dict(clauses=["C02_"], sims=[("Sim_base", 50, 500, 150), ("Sim_conn", 50, 500, 150), ("Sim_multi", 20, 300, 170)], mc=[("MC_c02", 900, "both")]),
+    "C02": dict(clauses=["C02_"], sims=[("Sim_base", 50, 500, 150), ("Sim_conn", 50, 500, 150), ("Sim_multi", 20, 300, 170)], mc=[("MC_c02", 900, "both")], crashpoints=True),
     "C04": dict(clauses=["C04_"], sims=[("Sim_conn", 80, 800, 150), ("Sim_rollback", 30, 400, 170)], mc=[("MC_c04q", 400, "quick"), ("MC_c04", 1500, "thorough")], data=True),
     "C05": dict(clauses=["C05_"], sims=[("Sim_base", 60, 600, 150), ("Sim_multi", 40, 400, 170)], mc=[("MC_c05", 900, "both")], data=True),
     "C06": dict(clauses=["C06_"], sims=[("Sim_rollback", 100, 1000, 170)], mc=[("MC_c06", 900, "both")], data=True),
@@ -29,7 +29,7 @@ PIPE = {
     "C08": dict(clauses=["C08_"], sims=[("Sim_client", 90, 900, 150), ("Sim_base", 30, 300, 150), ("Sim_dev", 30, 300, 150), ("Sim_rollback", 20, 200, 170)], mc=[("MC_c08", 900, "both")]),
     "C09": dict(clauses=["C09_"], sims=[("Sim_base", 80, 800, 150), ("Sim_dev", 40, 400, 150), ("Sim_multi", 30, 300, 170)], mc=[("MC_c09", 900, "both")]),
     "C10": dict(clauses=["C10_"], sims=[("Sim_conn", 100, 1000, 150)], mc=[("MC_c10", 900, "both")]),
-    "C11": dict(clauses=["C11_"], sims=[("Sim_dev", 100, 1000, 150), ("Sim_multi", 20, 200, 170)], mc=[("MC_c11", 900, "both")]),
+    "C11": dict(clauses=["C11_"], sims=[("Sim_dev", 100, 1000, 150), ("Sim_multi", 20, 200, 170)], mc=[("MC_c11", 900, "both")], crashpoints=True),
 }
 
 EPILOGUE = [{"k": "drain"}, {"k": "heal"}, {"k": "drain"}, {"k": "observe"}, {"k": "probe"}, {"k": "drain"}, {"k": "observe"}]
@@ -58,7 +58,8 @@ def export_behaviours(specdir, module, num, depth, sd, outdir, timeout=1200):
 
 def normalise(b, name, sd):
     steps = list(b["steps"]) + EPILOGUE
-    return {"name": name, "targets": sorted(b["targets"]), "seed": sd, "steps": steps,
+    import zlib
+    return {"name": name, "targets": sorted(b["targets"]), "seed": sd * 100003 + zlib.crc32(name.encode()) % 100000, "steps": steps,
             "noplugin": b.get("noplugin", []), "limit": b.get("limit", 0)}
 
 
@@ -189,8 +190,19 @@ def run_mc(specdir, module, timeout, workers=12):
     """Exhaustive TLC on the specification with the property's invariants."""
     dump = os.path.join(specdir, module + "_cex.json")
     out, rc, wall = vlib.run_tlc(specdir, module + ".tla", module + ".cfg", args=["-dumpTrace", "json", dump],
-                                 workers=workers, heap="16g", timeout=timeout, metatag="mc")
+                                 env={"COVER": "1"}, workers=workers, heap="16g", timeout=timeout, metatag="mc")
     gen, dist = vlib.tlc_stats(out)
+    # coverage-directed witnesses: shortest schedule per distinct reconcile context (OnosV2MC!Cover)
+    cover = {}
+    for m in re.finditer(r'<<"COVER", (".*")>>', out):
+        try:
+            j = json.loads(json.loads(m.group(1)))
+        except ValueError:
+            continue
+        c = j["ctx"]
+        if c not in cover or len(j["steps"]) < len(cover[c]["steps"]):
+            cover[c] = j
+    out = re.sub(r'<<"COVER", ".*">>\n', "", out)
     res = dict(module=module, generated=gen, distinct=dist, wall_s=round(wall, 1), complete="Model checking completed" in out,
                violated=re.findall(r"Invariant (\w+) is violated|property (\w+) is violated", out), timed_out=(rc == -9))
     bad = vlib.tlc_failed(out)
@@ -207,7 +219,8 @@ def run_mc(specdir, module, timeout, workers=12):
         except Exception as e:  # noqa
             log("could not read counterexample dump:", e)
     res["violated"] = sorted({a or b for a, b in res["violated"]})
-    return res, cex
+    res["contexts"] = len(cover)
+    return res, cex, cover
 
 
 def finding_matches(k, prop, clause, scenario, trace_lines, line):
@@ -250,9 +263,21 @@ def check(prop, tier, replay_file=None):
                     continue
                 if tier == "quick":
                     tmo = min(tmo, 400)
-                res, cex = run_mc(specdir, module, tmo)
+                res, cex, cover = run_mc(specdir, module, tmo)
                 mc_results.append(res)
                 log("mc %s: %s" % (module, res))
+                # one real-code run per distinct reconcile context the exhaustive exploration met (all of them in the
+                # thorough tier, a seeded sample in the quick tier)
+                ctxs = sorted(cover)
+                want = conf.get("cover", (150, 4000))[0 if tier == "quick" else 1]
+                if len(ctxs) > want:
+                    ctxs = sorted(random.Random(sd).sample(ctxs, want))
+                res["contexts_replayed"] = len(ctxs)
+                for c in ctxs:
+                    s = normalise(cover[c], "cover-%s-%s" % (module, hashlib.sha1(c.encode()).hexdigest()[:10]), sd)
+                    s["ctx"] = c
+                    scenarios.append(s)
+                    origin[s["name"]] = "cover"
                 if cex and cex["steps"]:
                     s = normalise(cex, "mc-cex-" + module, sd)
                     scenarios.append(s)
@@ -455,21 +480,43 @@ def clause_names(specdir):
 
 
 def crashpoint_variants(scenarios, origin, tier, sd):
-    """Real-code crash-point enumeration (C07): for crash-free behaviours, re-run with a crash injected
-    after the k-th scheduler step, for a seeded sample (quick) or every k (thorough)."""
+    """Real-code crash-point enumeration: for crash-free behaviours, re-run with a crash injected
+      - after the k-th scheduler step (between reconciles), and
+      - INSIDE the k-th reconcile, after its j-th persisted effect (the reconcile is begun in fine mode, j effects
+        are released, the process is killed, restarted, and the rest of the schedule follows),
+    for a seeded sample (quick) or a large sample (thorough)."""
     rnd = random.Random(sd)
     out = []
-    base = [s for s in scenarios if not any(st["k"] == "crash" for st in s["steps"])]
+    base = [s for s in scenarios if not any(st["k"] in ("crash", "begin") for st in s["steps"])]
     rnd.shuffle(base)
-    base = base[: (6 if tier == "quick" else 40)]
+    base = base[: (8 if tier == "quick" else 60)]
+
+    def actor(st):
+        if st["c"] == "prop":
+            return "prop:" + st["id"].rsplit("-", 1)[0]
+        return st["c"]
     for s in base:
         body = s["steps"][:-len(EPILOGUE)]
+        rest = lambda k: [st for st in body[k:] if st["k"] not in ("crash", "restart")]
         ks = list(range(2, len(body)))
+        runs = [k for k in ks if body[k]["k"] == "run" and body[k].get("c") in ("prop", "tx", "cfg", "mast")]
+        props = [k for k in runs if body[k]["c"] == "prop"]
         if tier == "quick":
-            ks = rnd.sample(ks, min(6, len(ks)))
+            ks = rnd.sample(ks, min(4, len(ks)))
+            runs = rnd.sample(props, min(5, len(props))) + rnd.sample(runs, min(2, len(runs)))
+        else:
+            runs = rnd.sample(props, min(30, len(props))) + rnd.sample(runs, min(10, len(runs)))
         for k in ks:
-            steps = body[:k] + [{"k": "crash"}, {"k": "restart"}] + [st for st in body[k:] if st["k"] not in ("crash", "restart")] + EPILOGUE
-            v = dict(s, name="%s-crash%03d" % (s["name"], k), steps=steps)
+            steps = body[:k] + [{"k": "crash"}, {"k": "restart"}] + rest(k) + EPILOGUE
+            v = dict(s, name="%s-crash%03d" % (s["name"], k), steps=steps, seed=sd * 1000 + k)
             out.append(v)
             origin[v["name"]] = "crashpoint"
+        for k in sorted(set(runs)):
+            st = body[k]
+            for j in ((1, 2) if tier == "quick" else (1, 2, 3)):
+                steps = (body[:k] + [{"k": "begin", "c": st["c"], "id": st["id"]}] + [{"k": "exec", "a": actor(st)}] * j +
+                         [{"k": "crash"}, {"k": "restart"}] + rest(k + 1) + EPILOGUE)
+                v = dict(s, name="%s-crash%03de%d" % (s["name"], k, j), steps=steps, seed=sd * 1000 + k * 10 + j)
+                out.append(v)
+                origin[v["name"]] = "crashpoint-effect"
     return out
